@@ -53,7 +53,10 @@ Print Assumptions C07_stamp_frame.
    one of the ticks served there while the output channel is full finds the progress channel
    closed; then handleProgress's error is returned to Start and the message held is never
    forwarded (the client stops: C18_blocked_channel_closed_stops).  Without that condition the
-   statement is false: C07_blocked_closed_not_forwarded. *)
+   statement is false: C07_blocked_closed_not_forwarded.
+   [ev_couts] of an ErrorResponse whose recovery FAILS ([EErrorResponseFail], the client stops:
+   props/C17_client.v) is that of an ErrorResponse whose recovery succeeds: the synthetic COMMIT of
+   the open transaction is forwarded before the failure. *)
 Theorem C07_forwarded_exactly : forall s it,
   couts (snd (cstep s it)) =
   if stopped s || i_pclosed it || write_fails s it then [] else ev_couts (head_state s it) (i_ev it).
@@ -120,7 +123,8 @@ Print Assumptions C07_key_scope_monitor.
 (* [commits_ok true evs]: between two BEGIN events (and before the first) at most one COMMIT —
    none before the first BEGIN —, and no COMMIT between an ErrorResponse and the next BEGIN (the
    ErrorResponse gives the open transaction, if any, its one COMMIT).  ErrorResponses are allowed
-   anywhere and in any number. *)
+   anywhere and in any number; one whose recovery fails ([EErrorResponseFail]) counts as an
+   ErrorResponse here (same synthetic COMMIT; the client then stops, so nothing after it matters). *)
 Theorem C07_one_commit : forall first its,
   script_ok its = true -> commits_ok true (map i_ev its) = true ->
   NoDup (commit_keys (snd (crun first its))).
